@@ -5552,14 +5552,19 @@ class CodegenCtx:
     def _escape_string(self, value: Union[bytes, str]):
         result = ""
         if type(value) is str:
-            bytes_value = value.encode('utf-8')
+            # string literals denote bytes: every character is a code point below 256 (see _convert_string)
+            try:
+                bytes_value = value.encode('latin-1')
+            except UnicodeEncodeError as e:
+                raise IllegalDFAStateError("String literal contains a character that is not a single byte; use \\xHH escapes", value) from e
         else:
             bytes_value = value
         for i in bytes_value:
             if chr(i) in ["\\", '"']:
                 result += "\\" + chr(i)
             elif not (32 <= i < 127):
-                result += "\\x{:02x}".format(i)
+                # three-digit octal escapes cannot run on into a following hex digit the way \xHH does
+                result += "\\{:03o}".format(i)
             else:
                 result += chr(i)
         return result
@@ -5573,10 +5578,8 @@ class CodegenCtx:
         Must ensure value is short enough first.
         """
 
-        if isinstance(value, str):
-            escaped_length = len(value.encode('utf-8'))
-        else:
-            escaped_length = len(value)
+        # one byte per character (string literals denote bytes), so this agrees with the length counter
+        escaped_length = len(value)
 
         return f"memcpy(state->c.{into.name}, \"{self._escape_string(value)}\", {escaped_length if not into.str_null else escaped_length+1});"
 
